@@ -11,7 +11,7 @@ from ..core import Ctx, Report
 from ..framing import families
 from ..model import NotConst, ClassInfo, norm
 from ..reference import MODBUS_EXCEPTION_CODES, UNKNOWN_REASON
-from ..symx import Lin, domain_constraints
+from ..symx import Lin, domain_constraints, joint_contradiction
 from .c01 import validator_paths, data_param, byte_t, vparam_term
 from .proto import proto_classes, method, protocol_paths, tags, loop_callbacks, net_mayraise, callback_is
 
@@ -29,6 +29,7 @@ EXPLANATION = (
     ' (R4, shared with C07.R1) no fragment of an earlier transmission survives into a retransmission, so an exception frame is validated on its own.'
     ' R1 also checks the converse: every validator path that established function code != cmd ends in the RequestRejectedException raise.'
     ' R1 evaluates the message expression of every rejection raise site for all 256 code bytes (any representation of the reason table).'
+    ' (R5) for a well-formed exception answer (function code = cmd | 0x80, one code byte, RTU: correct CRC) to a read, write and write-multi command every validator outcome other than the rejection raise is refuted.'
 )
 
 
@@ -112,6 +113,8 @@ def check(ctx: Ctx, rep: Report):
         for p, r in validator_paths(ctx, fam):
             if not any(f.kind == "ne" and f.lin is not None and set(f.lin.terms) == {fc_t, cmd_t} for f in r.facts):
                 continue
+            if joint_contradiction(r.facts, r.facts) is not None:
+                continue          # the path tests the same comparison both ways: infeasible
             npaths += 1
             if not (p.end == "raise" and p.end_data is rejected) and bad is None:
                 bad = p
@@ -126,6 +129,7 @@ def check(ctx: Ctx, rep: Report):
                                   and isinstance(n.value, ast.Name) and n.value.id == init.params[1] for n in ast.walk(init.node))
     rep.check(ok, "C08.R1", "exception-field", rejected.module.relpath, "RequestRejectedException keeps its message",
               bad="RequestRejectedException.__init__ no longer stores the message it is given")
+    r5_exception_frame(ctx, rep, fams, rejected)
     r2(ctx, rep, rejected)
     r3(ctx, rep, rejected, table)
     # ---- R4 shared with C07: an exception frame answering a retransmission must not be glued to a fragment of the
@@ -136,6 +140,47 @@ def check(ctx: Ctx, rep: Report):
         c07_r1(ctx, sub, ci)
     for o in sub.obligations:
         rep.obligations.append(type(o)("C08.R4", o.key, o.where, o.what, o.status, o.detail))
+
+
+def r5_exception_frame(ctx, rep, fams, rejected):
+    """A well-formed Modbus exception answer (function code = command | 0x80, one exception-code byte, RTU: correct CRC) to
+    a read, a write and a write-multi command: every outcome of the validator other than the RequestRejectedException raise
+    is refuted (path facts against the frame's facts).  The validators' branches on the *command* (not only on the
+    function code byte of the answer) are covered this way - R1's converse needs the comparison to have been reached."""
+    from ..symx import Fact, joint_contradiction
+    from ..reference import MODBUS_READ, MODBUS_WRITE, MODBUS_WRITE_MULTI
+    rep.rule("C08.R5", "a well-formed exception answer (function code = cmd | 0x80) to a read / write / write-multi command can only end in the RequestRejectedException raise", 6)
+    for fam in fams.values():
+        if fam.kind == "aa55":
+            continue
+        data = data_param(fam)
+        dv = ("var", data)
+        ln = Lin.of_term(("len", dv))
+        total = fam.fc + 2 + fam.tail          # ... function code, exception code[, crc lo, crc hi]
+        fcb = Lin.of_term(byte_t(data, fam.fc))
+        cmd = Lin.of_term(vparam_term(fam, "cmd"))
+        for c, what in ((MODBUS_READ, "read"), (MODBUS_WRITE, "write"), (MODBUS_WRITE_MULTI, "write-multi")):
+            A = [Fact("eq", ln - Lin.of_const(total)), Fact("eq", cmd - Lin.of_const(c)), Fact("eq", fcb - Lin.of_const(c | 0x80)),
+                 Fact("ne", fcb - cmd)]
+            if fam.has_checksum:
+                for lo in (ln - Lin.of_const(2), Lin.of_const(total - 2)):
+                    crc = ("call", "_modbus_checksum", (("slice", dv, Lin.of_const(fam.fc - 1), lo),))
+                    A.append(Fact("eq", Lin.of_term(crc) - Lin.of_term(("int", ("slice", dv, lo, lo + Lin.of_const(2)), "little", False))))
+            bad = None
+            reached = 0
+            for p, r in validator_paths(ctx, fam):
+                if joint_contradiction(A, r.facts) is not None:
+                    continue
+                if p.end == "raise" and p.end_data is rejected:
+                    reached += 1
+                elif bad is None:
+                    bad = (p, r)
+            rep.check(bad is None and reached > 0, "C08.R5", "exception-frame:%s:%s" % (fam.validator.short, what), fam.validator.loc(bad[0].end_node) if bad else fam.validator.loc(),
+                      "%s: a %d-byte exception answer to a %s command can only end in RequestRejectedException (%d path(s))" % (fam.validator.short, total, what, reached),
+                      bad="%s: a well-formed exception answer (function code 0x%02x, %d bytes) to a %s command %s: the reason is lost (the frame is ignored, retried or reported without its reason) [path %s]" % (
+                          fam.validator.short, c | 0x80, total, what,
+                          "can end in '%s' instead of RequestRejectedException(reason)" % (bad[0].end if bad[0].end != "raise" else "raise " + ctx.prog.exc_name(bad[0].end_data)) if bad else "reaches the rejection on no path",
+                          bad[0].describe(8) if bad else ""))
 
 
 def r2(ctx, rep, rejected):
